@@ -213,12 +213,38 @@ func checkC18(c c18Case, rec *Rec) *Violation {
 			return viol(id, c18Sig(c, "C18:engine-differs"), "line %q: DNSEngine.Match(%q) returns the rule under V4=%v V6=%v, want V4=%v V6=%v", line, p, in4, in6, want4, want6)
 		}
 	}
+	if hash64(line)%2 == 0 {
+		// the same lines in a file, the line under test last and without a line feed
+		fst, fcleanup, ferr := buildStorage([]ListSpec{{ID: 7, Text: other + "\n" + fifth + "\n" + line, File: true}})
+		if ferr != nil {
+			return viol(id, "C18:harness", "storage: %v", ferr)
+		}
+		fd := urlfilter.NewDNSEngine(fst)
+		for _, nm := range c.Names {
+			res, _ := fd.Match(nm)
+			found := false
+			for _, x := range append(append([]*rules.HostRule{}, res.HostRulesV4...), res.HostRulesV6...) {
+				if x.Text() == strings.TrimSpace(line) {
+					found = true
+				}
+			}
+			if !found {
+				fcleanup()
+				return viol(id, c18Sig(c, "C18:engine-differs:file-backed-last-line"), "file-backed list ending in the unterminated line %q: DNSEngine.Match(%q) does not return the line", line, nm)
+			}
+		}
+		fcleanup()
+	}
 	rec.LabelN("probes", len(probes))
 	return nil
 }
 
 var c18NamePool = []string{"example.org", "a.com", "sub.a-b.co.uk", "xn--p1ai.xn--p1ai", "x1.y2.zz", "localhost.localdomain", "example.or", "xample.org", "b.example.org", "Printer.LAN", "Ads.Example.COM",
-	"face.cc", "abc.de", "0.cc", "bad.ac", "b.ac.be"} // spelled with hexadecimal digits only
+	"face.cc", "abc.de", "0.cc", "bad.ac", "b.ac.be", // spelled with hexadecimal digits only
+	zeroHashNames[0], zeroHashNames[1], // names whose hash is 0
+	// names of 64 and more bytes (labels stay below 64)
+	strings.Repeat("a", 59) + ".com", strings.Repeat("a", 60) + ".com", strings.Repeat("b", 63) + "." + strings.Repeat("c", 63) + ".example",
+	strings.Repeat("d", 63) + "." + strings.Repeat("e", 63) + "." + strings.Repeat("f", 63) + "." + strings.Repeat("g", 57) + ".com"}
 var c18IPs = []string{"0.0.0.0", "127.0.0.1", "::", "::1", "::ffff:1.2.3.4", "fe80::1", "2001:db8::1", "10.1.2.3", "255.255.255.255", "0:0:0:0:0:0:0:1"}
 
 func c18WS(t *rapid.T, label string) string {
